@@ -160,7 +160,8 @@ def slot_queries(pid, entries, quickmax, thoroughmax, extra=None, nmin=1, extra_
 @prop("C03")
 def c03():
     return slot_queries("C03", ["vh_delete_insert"], 3, 4, extra={"NSPARE": 2}) + slot_queries("C03", ["vh_delete_putcopy"], 3, 4, nmin=2) + slot_queries("C03", ["vh_reverse", "vh_delete_gc", "vh_insert", "vh_put_copy", "vh_temp_copy", "vh_next", "vh_append", "vh_associate"], 3, 5) + \
-           [Q("setglyph", "slots.cpp", "vh_setglyph", {"NS": 1}, unwind=8), Q("slot_index", "slots.cpp", "vh_slot_index", {"NS": 1}, unwind=8)]
+           [Q("setglyph", "slots.cpp", "vh_setglyph", {"NS": 1}, unwind=8), Q("slot_index", "slots.cpp", "vh_slot_index", {"NS": 1}, unwind=8)] + \
+           [x for x in QUERIES["C12"]() if "_extra" in x.name and ("len0" in x.name or "len1" in x.name)]      # gr_seg_n_slots == slots actually appended when the text ends early
 
 # ------------------------------------------------------------------------------------------- C12
 META["C12"] = {
@@ -246,6 +247,8 @@ def c17():
     for ax in range(4):
         qs.append(Q(f"initslot_limit_axis{ax}", "collider.cpp", "vh_initslot", {"AXIS": ax, "ZERO_OFFSET": None} if ax >= 2 else {"AXIS": ax}, unwind=8, unwindset={"initSlot": 6, "vh_initslot": 6},
                     dyadic=4, cc_defs=["LL_REALLOC_UNREACHABLE"]))
+    qs.append(Q("initslot_resolve", "collider.cpp", "vh_initslot", {"AXIS": 0, "VH_RESOLVE": None}, unwind=8, unwindset={"initSlot": 6, "vh_initslot": 6, "resolve": 6, "closest": 4, "find_exclusion_under": 5},
+                cc_defs=["LL_REALLOC_UNREACHABLE"], cbmc_flags=["--sat-solver", "cadical"], timeout=1700, tiers=("experimental",)))     # bit-precise IEEE; not registered in any tier until it gives a verdict (the dyadic lowering cannot express resolve's FLT_MAX sentinels)
     for cost in (0, 1):
         qs.append(Q("mergeslot_subbox_equiv" + ("_cost" if cost else ""), "mergeslot.cpp", "vh_mergeslot_sub", {"CMP_COST": None} if cost else {}, unwind=8, unwindset={"mergeSlot": 6, "vh_mergeslot_sub": 14},
                     stubs=["_ZN9graphite25Zones20exclude_with_marginsEffi", "_ZN9graphite25Zones12weightedAxisEiffffffffb"], unit_flags={"Collider": ["-fno-inline"], "Intervals": ["-fno-inline"]},
@@ -503,6 +506,7 @@ def c06():
             qs.append(Q(f"rule_loop_n{n}", "fsm.cpp", "vh_rule_loop", {"NS": n, "SCRIPT": 5, "VH_RULE_LOOP": None}, unwind=n + 9, unwindset={"runGraphite": 8, "vh_rule_loop": 9}, tiers=tiers,
                         unit_flags={"Pass": ["-fno-inline"]}, stubs=["_ZNK9graphite24Pass11findNDoRuleERPNS_4SlotERNS_2vm7MachineERNS_18FiniteStateMachineE"]))
         qs.append(Q(f"adjust_n{n}", "fsm.cpp", "vh_adjust", {"NS": n}, unwind=n + 6, unwindset={"adjustSlot": 6, "make_pass": 8}, tiers=tiers))
+    qs += [x for x in QUERIES["C01"]() if x.name.startswith("readstates_cap")]      # rule precedence survives the MAX_RULES cap (the whole list is sorted first)
     for ai, bi in (("0", "1"), ("1", "0"), ("0", "0"), ("0,1", "2"), ("0,2", "1"), ("1,2", "0"), ("0,1", "1"), ("0,1", "1,2"), ("0,2", "1,3"), ("1,3", "0,2"), ("0,1", "0,1")):
         la, lb = len(ai.split(",")), len(bi.split(","))
         nr = max(int(x) for x in (ai + "," + bi).split(",")) + 1
